@@ -51,13 +51,16 @@ deriving Repr
 
 /-- `TarHdrToMetadata` -/
 def tarHdrToMeta (h : TarHdr) : HdrRes :=
-  match mustRel h.name with
-  | none => .halt .wareCorrupt                       -- absolute name: refused (was a `MustRelPath` panic before the fix)
-  | some name =>
-    match tarTypeToFsType h.typeflag with
-    | .skip => .skip
-    | .invalid => .halt .wareCorrupt
-    | .kind k =>
+  -- records that are no entries (pax global header, GNU volume label) are skipped before their name is looked at:
+  -- GNU tar names its global header `/tmp/GlobalHead.%p.%n` (until the `fix:` the name check came first and such
+  -- archives were refused as corrupt)
+  match tarTypeToFsType h.typeflag with
+  | .skip => .skip
+  | .invalid => (match mustRel h.name with | none => .halt .wareCorrupt | some _ => .halt .wareCorrupt)
+  | .kind k =>
+    match mustRel h.name with
+    | none => .halt .wareCorrupt                       -- absolute name: refused (was a `MustRelPath` panic before the fix)
+    | some name =>
       .meta_ { name := name, kind := k, perms := (h.mode % 4096).toNat, uid := toU32 h.uid, gid := toU32 h.gid,
                size := h.size, linkname := h.linkname, devmajor := h.devmajor, devminor := h.devminor,
                mtime := h.mtime, xattrs := h.xattrs }
